@@ -2,7 +2,12 @@
 use crate::dom_mbi::view;
 use crate::{guard, hexs, Arg, Ctx, Guarded};
 use multiboot2_common::{DynSizedStructure, MaybeDynSized};
-use multiboot2_header::{HeaderTagHeader, HeaderTagISA, LoadError, Multiboot2BasicHeader, Multiboot2Header};
+use multiboot2_header::{
+    AddressHeaderTag, ConsoleHeaderTag, EfiBootServiceHeaderTag, EndHeaderTag, EntryAddressHeaderTag,
+    EntryEfi32HeaderTag, EntryEfi64HeaderTag, FramebufferHeaderTag, HeaderTagHeader, HeaderTagISA,
+    InformationRequestHeaderTag, LoadError, ModuleAlignHeaderTag, Multiboot2BasicHeader, Multiboot2Header,
+    RelocatableHeaderTag,
+};
 
 pub type HGeneric = DynSizedStructure<HeaderTagHeader>;
 
@@ -109,78 +114,130 @@ fn get_line<T: ?Sized>(ctx: &mut Ctx, g: &Guarded, name: &str, r: Result<Option<
     }
 }
 
+fn en(v: u32, hi: u32) -> String {
+    if v <= hi {
+        format!("VAL {}", v)
+    } else {
+        "UB".to_string()
+    }
+}
+
+fn raw<T: ?Sized>(t: &T) -> *const u8 {
+    t as *const T as *const u8
+}
+
+// ---- one line per header tag kind (the accessors of a typed tag) -----------------
+
+pub fn hk_end(ctx: &mut Ctx, t: &EndHeaderTag) {
+    ctx.ln("end_tag", common(raw(t)));
+}
+
+pub fn hk_information_request(ctx: &mut Ctx, g: &Guarded, t: &InformationRequestHeaderTag) {
+    let reqs = t.requests();
+    let list: Vec<String> = reqs.iter().map(|r| format!("{}", u32::from(*r))).collect();
+    ctx.ln(
+        "information_request_tag",
+        format!(
+            "{} requests=@{}+{} [{}]",
+            common(raw(t)),
+            g.off(reqs.as_ptr()),
+            core::mem::size_of_val(reqs),
+            list.join(",")
+        ),
+    );
+}
+
+pub fn hk_address(ctx: &mut Ctx, t: &AddressHeaderTag) {
+    ctx.ln(
+        "address_tag",
+        format!(
+            "{} header_addr={} load_addr={} load_end_addr={} bss_end_addr={}",
+            common(raw(t)),
+            t.header_addr(),
+            t.load_addr(),
+            t.load_end_addr(),
+            t.bss_end_addr()
+        ),
+    );
+}
+
+pub fn hk_entry_address(ctx: &mut Ctx, t: &EntryAddressHeaderTag) {
+    ctx.ln("entry_address_tag", format!("{} entry_addr={}", common(raw(t)), t.entry_addr()));
+}
+
+pub fn hk_entry_address_efi32(ctx: &mut Ctx, t: &EntryEfi32HeaderTag) {
+    ctx.ln("entry_address_efi32_tag", format!("{} entry_addr={}", common(raw(t)), t.entry_addr()));
+}
+
+pub fn hk_entry_address_efi64(ctx: &mut Ctx, t: &EntryEfi64HeaderTag) {
+    ctx.ln("entry_address_efi64_tag", format!("{} entry_addr={}", common(raw(t)), t.entry_addr()));
+}
+
+pub fn hk_console_flags(ctx: &mut Ctx, t: &ConsoleHeaderTag) {
+    let p = raw(t);
+    ctx.ln("console_flags_tag", format!("{} console_flags={}", common(p), en(raw32(p, 8), 1)));
+}
+
+pub fn hk_framebuffer(ctx: &mut Ctx, t: &FramebufferHeaderTag) {
+    ctx.ln(
+        "framebuffer_tag",
+        format!("{} width={} height={} depth={}", common(raw(t)), t.width(), t.height(), t.depth()),
+    );
+}
+
+pub fn hk_module_align(ctx: &mut Ctx, t: &ModuleAlignHeaderTag) {
+    ctx.ln("module_align_tag", common(raw(t)));
+}
+
+pub fn hk_efi_boot_services(ctx: &mut Ctx, t: &EfiBootServiceHeaderTag) {
+    ctx.ln("efi_boot_services_tag", common(raw(t)));
+}
+
+pub fn hk_relocatable(ctx: &mut Ctx, t: &RelocatableHeaderTag) {
+    let p = raw(t);
+    ctx.ln(
+        "relocatable_tag",
+        format!(
+            "{} min_addr={} max_addr={} align={} preference={}",
+            common(p),
+            t.min_addr(),
+            t.max_addr(),
+            t.align(),
+            en(raw32(p, 20), 2)
+        ),
+    );
+}
+
 pub fn dump_getters(ctx: &mut Ctx, g: &Guarded, h: &Multiboot2Header) {
-    let en = |v: u32, hi: u32| if v <= hi { format!("VAL {}", v) } else { "UB".to_string() };
-    if let Some(p) = get_line(ctx, g, "information_request", guard(|| h.information_request_tag())) {
-        let t = h.information_request_tag().unwrap();
-        let reqs = t.requests();
-        let list: Vec<String> = reqs.iter().map(|r| format!("{}", u32::from(*r))).collect();
-        ctx.ln(
-            "information_request_tag",
-            format!(
-                "{} requests=@{}+{} [{}]",
-                common(p),
-                g.off(reqs.as_ptr()),
-                core::mem::size_of_val(reqs),
-                list.join(",")
-            ),
-        );
+    if get_line(ctx, g, "information_request", guard(|| h.information_request_tag())).is_some() {
+        hk_information_request(ctx, g, h.information_request_tag().unwrap());
     }
-    if let Some(p) = get_line(ctx, g, "address", guard(|| h.address_tag())) {
-        let t = h.address_tag().unwrap();
-        ctx.ln(
-            "address_tag",
-            format!(
-                "{} header_addr={} load_addr={} load_end_addr={} bss_end_addr={}",
-                common(p),
-                t.header_addr(),
-                t.load_addr(),
-                t.load_end_addr(),
-                t.bss_end_addr()
-            ),
-        );
+    if get_line(ctx, g, "address", guard(|| h.address_tag())).is_some() {
+        hk_address(ctx, h.address_tag().unwrap());
     }
-    if let Some(p) = get_line(ctx, g, "entry_address", guard(|| h.entry_address_tag())) {
-        let t = h.entry_address_tag().unwrap();
-        ctx.ln("entry_address_tag", format!("{} entry_addr={}", common(p), t.entry_addr()));
+    if get_line(ctx, g, "entry_address", guard(|| h.entry_address_tag())).is_some() {
+        hk_entry_address(ctx, h.entry_address_tag().unwrap());
     }
-    if let Some(p) = get_line(ctx, g, "entry_address_efi32", guard(|| h.entry_address_efi32_tag())) {
-        let t = h.entry_address_efi32_tag().unwrap();
-        ctx.ln("entry_address_efi32_tag", format!("{} entry_addr={}", common(p), t.entry_addr()));
+    if get_line(ctx, g, "entry_address_efi32", guard(|| h.entry_address_efi32_tag())).is_some() {
+        hk_entry_address_efi32(ctx, h.entry_address_efi32_tag().unwrap());
     }
-    if let Some(p) = get_line(ctx, g, "entry_address_efi64", guard(|| h.entry_address_efi64_tag())) {
-        let t = h.entry_address_efi64_tag().unwrap();
-        ctx.ln("entry_address_efi64_tag", format!("{} entry_addr={}", common(p), t.entry_addr()));
+    if get_line(ctx, g, "entry_address_efi64", guard(|| h.entry_address_efi64_tag())).is_some() {
+        hk_entry_address_efi64(ctx, h.entry_address_efi64_tag().unwrap());
     }
-    if let Some(p) = get_line(ctx, g, "console_flags", guard(|| h.console_flags_tag())) {
-        ctx.ln("console_flags_tag", format!("{} console_flags={}", common(p), en(raw32(p, 8), 1)));
+    if get_line(ctx, g, "console_flags", guard(|| h.console_flags_tag())).is_some() {
+        hk_console_flags(ctx, h.console_flags_tag().unwrap());
     }
-    if let Some(p) = get_line(ctx, g, "framebuffer", guard(|| h.framebuffer_tag())) {
-        let t = h.framebuffer_tag().unwrap();
-        ctx.ln(
-            "framebuffer_tag",
-            format!("{} width={} height={} depth={}", common(p), t.width(), t.height(), t.depth()),
-        );
+    if get_line(ctx, g, "framebuffer", guard(|| h.framebuffer_tag())).is_some() {
+        hk_framebuffer(ctx, h.framebuffer_tag().unwrap());
     }
-    if let Some(p) = get_line(ctx, g, "module_align", guard(|| h.module_align_tag())) {
-        ctx.ln("module_align_tag", common(p));
+    if get_line(ctx, g, "module_align", guard(|| h.module_align_tag())).is_some() {
+        hk_module_align(ctx, h.module_align_tag().unwrap());
     }
-    if let Some(p) = get_line(ctx, g, "efi_boot_services", guard(|| h.efi_boot_services_tag())) {
-        ctx.ln("efi_boot_services_tag", common(p));
+    if get_line(ctx, g, "efi_boot_services", guard(|| h.efi_boot_services_tag())).is_some() {
+        hk_efi_boot_services(ctx, h.efi_boot_services_tag().unwrap());
     }
-    if let Some(p) = get_line(ctx, g, "relocatable", guard(|| h.relocatable_tag())) {
-        let t = h.relocatable_tag().unwrap();
-        ctx.ln(
-            "relocatable_tag",
-            format!(
-                "{} min_addr={} max_addr={} align={} preference={}",
-                common(p),
-                t.min_addr(),
-                t.max_addr(),
-                t.align(),
-                en(raw32(p, 20), 2)
-            ),
-        );
+    if get_line(ctx, g, "relocatable", guard(|| h.relocatable_tag())).is_some() {
+        hk_relocatable(ctx, h.relocatable_tag().unwrap());
     }
 }
 
